@@ -265,6 +265,47 @@ Definition actor_pfp (a : actor) : option (text * media_type) :=
 Definition actor_banner (a : actor) : option (text * media_type) :=
   match a_banner a with FOk l => link_select l (mt_unknown_subtype (lower_ascii s_image)) | _ => None end.
 
+(* ---------------------------------------------------------------- activities *)
+(* an activity shows who did what above its target; the target's own texts (a post's, an actor's or an
+   error item's - all modelled above) are inputs here *)
+Record activity := mkactivity {
+  v_kind : text;
+  v_actor : fval text;                 (* FOk (actor.Name()) | FErr / FAbsent with the message of actorErr *)
+  v_actor_msg : text;
+  v_target_name : text;
+  v_target_string : Z -> text;
+  v_target_preview : Z -> text }.
+
+Definition s_create := t [67;114;101;97;116;101].
+Definition s_announce := t [65;110;110;111;117;110;99;101].
+Definition s_like := t [76;105;107;101].
+Definition s_dislike := t [68;105;115;108;105;107;101].
+Definition s_retweeted := t [114;101;116;119;101;101;116;101;100].
+Definition s_upvoted := t [117;112;118;111;116;101;100].
+Definition s_downvoted := t [100;111;119;110;118;111;116;101;100].
+
+Definition activity_header (a : activity) (w : Z) : res text :=
+  if text_eqb (v_kind a) s_create then Ok []
+  else
+    let who := match v_actor a with FOk n => n | _ => problem col (v_actor_msg a) end in
+    let verb := if text_eqb (v_kind a) s_announce then Some s_retweeted
+                else if text_eqb (v_kind a) s_like then Some s_upvoted
+                else if text_eqb (v_kind a) s_dislike then Some s_downvoted
+                else None in                                  (* panic("encountered unrecognized Activity type") *)
+    match verb with
+    | Some v => Ok (wrap (who ++ [SP] ++ v ++ [58%N; NL]) w)
+    | None => Panic
+    end.
+
+Definition activity_string (a : activity) (w : Z) : res text :=
+  match activity_header a w with Ok h => Ok (h ++ v_target_string a w) | Panic => Panic end.
+Definition activity_preview (a : activity) (w : Z) : res text :=
+  match activity_header a w with Ok h => Ok (h ++ v_target_preview a w) | Panic => Panic end.
+Definition activity_name (a : activity) : text := v_target_name a.
+(* NewActivityFromObject accepts these four kinds only *)
+Definition activity_kind_ok (k : text) : bool :=
+  text_eqb k s_create || text_eqb k s_announce || text_eqb k s_like || text_eqb k s_dislike.
+
 (* ---------------------------------------------------------------- failures *)
 Definition failure_name (msg : text) : text := problem col msg.
 Definition failure_string (msg : text) (w : Z) : text := wrap (problem col msg) w.
